@@ -171,13 +171,36 @@ def _dict_subkeys(value, fn, methods):
     return []
 
 
-def written_keys(fn, methods, seen=None):
-    """literal keys a Scenarios method writes into its dict parameters (helpers inlined)"""
+def _fold_none_tests(e):
+    """`A if <literal> is None else B` -> A or B (what a helper parameter bound to a literal argument selects)"""
+    class T(ast.NodeTransformer):
+        def visit_IfExp(self, n):
+            n = self.generic_visit(n)
+            t = n.test
+            if isinstance(t, ast.Compare) and len(t.ops) == 1 and isinstance(t.left, ast.Constant) and isinstance(t.comparators[0], ast.Constant) \
+                    and t.comparators[0].value is None and isinstance(t.ops[0], (ast.Is, ast.IsNot, ast.Eq, ast.NotEq)):
+                is_none = t.left.value is None
+                truth = is_none if isinstance(t.ops[0], (ast.Is, ast.Eq)) else not is_none
+                return n.body if truth else n.orelse
+            return n
+    return T().visit(e)
+
+
+def written_keys(fn, methods, seen=None, view=None):
+    """literal keys a Scenarios method writes into its dict parameters (helpers inlined).  key -> [(statement, conditional?, value)]
+    where value is the stored expression as the outermost method sees it: a helper's parameters stand for the caller's arguments"""
+    from .core import HelperView, Inliner
     seen = seen or set()
     out = {}
     if fn.name in seen:
         return out
     seen = seen | {fn.name}
+    if view is None:
+        class _Ident:
+            def expr(self, e):
+                from .core import _strip_parents
+                return _strip_parents(e)
+        view = _Ident()
     for st in walk_no_nested(fn):
         tgts = []
         if isinstance(st, ast.Assign):
@@ -194,14 +217,15 @@ def written_keys(fn, methods, seen=None):
                         cond = False  # a literal range loop always runs
                     for last in expanded:
                         full = ".".join(ks[:-1] + [last])
-                        out.setdefault(full, []).append((st, cond))
+                        val = _fold_none_tests(view.expr(st.value)) if isinstance(st, ast.Assign) else None
+                        out.setdefault(full, []).append((st, cond, val))
                         if isinstance(st, ast.Assign):
                             for sub in _dict_subkeys(st.value, fn, methods):
-                                out.setdefault(full + "." + sub, []).append((st, cond))
+                                out.setdefault(full + "." + sub, []).append((st, cond, None))
         if isinstance(st, ast.Call):
             d = dotted(st.func)
             if d and d.startswith("self.") and d[5:] in methods and d[5:] not in NON_SETTERS:
-                for k, v in written_keys(methods[d[5:]], methods, seen).items():
+                for k, v in written_keys(methods[d[5:]], methods, seen, HelperView(view, st, methods[d[5:]])).items():
                     out.setdefault(k, []).extend(v)
     return out
 
@@ -255,6 +279,13 @@ def analyse_setters(index, rep):
             d = dotted(st.test)
             if d and d.endswith("_SET"):
                 check_flags.add(d[5:])
+        elif isinstance(st, ast.For) and isinstance(st.target, ast.Name) and isinstance(st.iter, (ast.Tuple, ast.List)) \
+                and all(isinstance(e, ast.Constant) and isinstance(e.value, str) for e in st.iter.elts):
+            # for flag in ("A_SET", ...): assert getattr(self, flag)
+            for a_ in st.body:
+                if isinstance(a_, ast.Assert) and isinstance(a_.test, ast.Call) and dotted(a_.test.func) == "getattr" and len(a_.test.args) == 2 \
+                        and norm_src(a_.test.args[0]) == "self" and norm_src(a_.test.args[1]) == st.target.id:
+                    check_flags |= {e.value for e in st.iter.elts if e.value.endswith("_SET")}
     setters = {}
     helpers = {}
     for name, fn in methods.items():
@@ -297,6 +328,25 @@ def analyse_setters(index, rep):
                   f"a path returns without setting self.{fam} = True (the option could be applied twice / never counted)",
                   loc=loc(SCEN, fn))
         setters[name] = dict(fn=fn, family=fam)
+    # a method that does nothing but hand over to a setter (`return self.<setter>(...)`, or the call followed by a plain return) is a
+    # setter of the same family: the delegate asserts and sets the flag on its behalf
+    changed = True
+    while changed:
+        changed = False
+        for name, fn in list(helpers.items()):
+            body = [s_ for s_ in fn.body if not (isinstance(s_, ast.Expr) and isinstance(s_.value, ast.Constant))]
+            call = None
+            if len(body) == 1 and isinstance(body[0], ast.Return) and isinstance(body[0].value, ast.Call):
+                call = body[0].value
+            elif len(body) == 2 and isinstance(body[0], ast.Expr) and isinstance(body[0].value, ast.Call) and isinstance(body[1], ast.Return) \
+                    and (body[1].value is None or isinstance(body[1].value, ast.Name)):
+                call = body[0].value
+            d = dotted(call.func) if call is not None else None
+            if d and d.startswith("self.") and d[5:] in setters and setters[d[5:]]["family"]:
+                setters[name] = dict(fn=fn, family=setters[d[5:]]["family"], delegates_to=d[5:])
+                del helpers[name]
+                rep.ok(rule, f"Scenarios.{name}:delegates-to-setter", detail=d[5:])
+                changed = True
     used = {v["family"] for v in setters.values() if v["family"]}
     rep.check(init_flags == check_flags == used, rule, "flag-sets-agree",
               f"flags initialised {sorted(init_flags - used | used - init_flags)} / asserted by check_all_set "
@@ -604,8 +654,8 @@ def effect(index, rep, sinfo, disp):
         for k, lit in want.items():
             sts = wk.get(k, [])
             vals = []
-            for st, cond in sts:
-                v = st.value
+            for st, cond, v in sts:
+                v = v if v is not None else st.value
                 vals.append(v.value if isinstance(v, ast.Constant) else "<" + norm_src(v) + ">")
             ok = len(vals) >= 1 and all(v == lit and type(v) == type(lit) for v in vals)
             rep.check(ok, rule, f"stated[{key}={val}]:{k}",
